@@ -302,5 +302,66 @@ theorem fabric (f : Fabric) (p : Pkt) :
 example : NoLoopback ((({} : Fabric).addHost [⟨false, 10⟩]).addHost [⟨false, 20⟩, ⟨true, 20⟩]) := by decide
 example : ((({} : Fabric).addHost [⟨false, 10⟩]).addHost [⟨false, 20⟩]).hostForIp ⟨false, 20⟩ = some 1 := by decide
 
+/-! ### Finding F-C17-1: an aborted, never-accepted child keeps its binding for ever
+
+  `close_frees` and `bind_iff` are about the sockets *in the table*.  The property speaks about
+  *live* sockets.  The two differ for a child socket that a listener created on a SYN and that
+  was aborted (peer RST, or SYN-ACK retransmissions exhausted) before it was ever accepted:
+  nothing owns it, nothing reaps it (`reap_closed` only looks at `fd_closed` sockets,
+  `CloseListener` only at `ready` and `SynReceived` children), `netstat` hides it, and its
+  binding `(addr, port)` makes every later bind of that address/port fail with `AddrInUse`. -/
+
+/-- listen on `a:p`, receive a SYN from `src`, receive the RST that answers the SYN-ACK (the
+    client gave up), close the listener, bind `a:p` again: does the second bind succeed? -/
+def rebindAfterAbort (fix : Bool) (a : Ip) (p : Nat) (src : Ep) : Bool :=
+  let k0 : Kernel := { addrs := [a], fixReap := fix }
+  match k0.bind a p true with
+  | .error _ => false
+  | .ok (k1, l) =>
+    let k2 := (k1.listen l).deliver ⟨src, ⟨a, p⟩, .tcp true false false false⟩
+    let k3 := k2.deliver ⟨src, ⟨a, p⟩, .tcp false false false true⟩
+    let k4 := k3.close l
+    -- no application handle exists any more
+    match k4.bind a p true with
+    | .ok _ => true
+    | .error _ => false
+
+/-- The clause of C17 at stake, on this family of histories: once the only application socket on
+    `a:p` is closed, `a:p` can be bound again. -/
+def C17_Statement (fix : Bool) : Prop :=
+  ∀ (a : Ip) (p : Nat) (src : Ep), a.isUnspec = false → a.isLoopback = false → p ≠ 0 → src.ip ≠ a →
+    rebindAfterAbort fix a p src = true
+
+/-- False on the faithful model of the code as it is. -/
+theorem C17_witness_F1 : ¬ C17_Statement false := by
+  intro h
+  have := h ⟨false, 10⟩ 80 ⟨⟨false, 20⟩, 41001⟩ (by decide) (by decide) (by decide) (by decide)
+  revert this
+  decide
+
+/-- With the repair (`fixReap`) the same history ends with a successful bind. -/
+theorem C17_fixed_instance : rebindAfterAbort true ⟨false, 10⟩ 80 ⟨⟨false, 20⟩, 41001⟩ = true := by decide
+
+/-- What is proved at full generality about closing: `C17_partial` = the table-level facts. Every
+    failure of `bind` is caused by a binding present in the index (`bind_iff`), removal clears
+    exactly the removed socket's entries (`close_frees`); the finding is precisely a socket
+    that is never removed. -/
+theorem C17_partial (k : Kernel) (ip : Ip) (port : Nat) (tcp : Bool) (hp : port ≠ 0)
+    (hloc : ip.isUnspec = true ∨ k.isLocal ip = true) :
+    k.bind ip port tcp = .error .addrInUse ↔
+      ∃ e ∈ k.tbl.bindings, Spec.conflicts e.1 ⟨ip.v6, tcp, ip, port⟩ = true := by
+  have hb := bind_iff k ip port tcp hp
+  constructor
+  · intro herr
+    cases hc : Kernel.bindConflict k.tbl.bindings ⟨ip.v6, tcp, ip, port⟩ with
+    | true => exact (bindConflict_true_iff _ _).mp hc
+    | false =>
+      have hall := (bindConflict_false_iff _ _).mp hc
+      obtain ⟨r, hr⟩ := hb.1.mpr ⟨hloc, hall⟩
+      rw [hr] at herr
+      exact absurd herr (by simp)
+  · intro hex
+    exact hb.2.2.1 hloc hex
+
 end C17
 end TV
